@@ -512,6 +512,15 @@ impl Settings {
             return Err(SettingsError::Exceeded);
         }
 
+        // Identifiers and values are encoded as variable-length integers,
+        // `len()` and `encode()` rely on every entry being representable.
+        if VarInt::from_u64(id.0).is_err() {
+            return Err(SettingsError::InvalidSettingId(id.0));
+        }
+        if VarInt::from_u64(value).is_err() {
+            return Err(SettingsError::InvalidSettingValue(id, value));
+        }
+
         //= https://www.rfc-editor.org/rfc/rfc9114#section-7.2.4
         //# The same setting identifier MUST NOT occur more than once in the
         //# SETTINGS frame.
